@@ -203,6 +203,10 @@ def build_param(param, d):
         if b is not None:
             kw['bounds'] = tuple(None if x is None else dec_val(x) for x in b)
         kw['inclusive_bounds'] = tuple(d['inclusive'])
+        sb = d.get('softbounds')
+        if sb is not None:
+            # soft bounds are advisory: neither the validators nor the schema may depend on them
+            kw['softbounds'] = tuple(None if x is None else dec_val(x) for x in sb)
     if t in ('Tuple', 'NumericTuple') and d.get('length') is not None:
         kw['length'] = d['length']
     if t == 'List':
@@ -239,8 +243,19 @@ def build_object(param, case):
     if case['level'] == 'class':
         obj = cls
     else:
-        vals = {n: dec_val(v) for n, v in zip(names, case['values']) if n not in later}
+        unset = set(case.get('unset') or [])
+        vals = {n: dec_val(v) for n, v in zip(names, case['values']) if n not in later and n not in unset}
         obj = cls(**vals)
+        if unset:
+            # the instance leaves these parameters unset; its per-instance Parameter objects come into
+            # being; then the class default is assigned: the instance follows it
+            obj.param.objects()
+            for n in names:
+                if n in unset:
+                    obj.param[n]
+            for n, v in zip(names, case['values']):
+                if n in unset:
+                    setattr(cls, n, dec_val(v))
     if later:
         for o in (obj, cls):
             try:
@@ -286,6 +301,21 @@ def gen_history(rng, case):
     if not added and not replaced:
         added = [ps[-1]['name']]
     return with_history(case, added, replaced)
+
+
+FOLLOWS_CLASS_DEFAULT = ('Integer', 'Number', 'String', 'Boolean', 'Tuple', 'NumericTuple', 'XYCoordinates', 'Range',
+                         'Date', 'CalendarDate', 'DateRange', 'CalendarDateRange', 'Selector', 'ListSelector', 'Color')
+
+
+def gen_unset(rng, case):
+    """instance-level: some parameters (instantiate=False types) are not passed to the constructor;
+    after the per-instance Parameter objects exist, the class default is set to the case's value"""
+    if case['level'] != 'instance':
+        return case
+    unset = [d['name'] for d in case['params'][1:]
+             if d['type'] in FOLLOWS_CLASS_DEFAULT and not (d['type'] == 'Selector' and d['objects'] == [])
+             and rng.random() < 0.6]
+    return dict(case, unset=unset) if unset else case
 
 
 def with_history(case, added, replaced):
@@ -473,6 +503,14 @@ def _bounds(rng, integer, nonfinite=0.0):
     return [None if lo_v is None else enc_val(lo_v), None if hi_v is None else enc_val(hi_v)], inc
 
 
+def _softbounds(rng):
+    """None or a (mostly narrow) pair: values between a soft and a hard bound are ordinary valid values"""
+    if rng.random() < 0.6:
+        return None
+    lo, hi = rng.choice([(0, 1), (-1, 1), (None, 0), (2, None), (1, 2), (0.25, 0.75), (-100, 100)])
+    return [None if lo is None else enc_val(lo), None if hi is None else enc_val(hi)]
+
+
 def _in_bounds_candidates(rng, b, integer, nonfinite=0.0):
     lo = hi = None
     if b is not None:
@@ -502,6 +540,7 @@ def gen_decl(rng, ptype, name, opts):
     if ptype in ('Integer', 'Number'):
         b, inc = _bounds(rng, ptype == 'Integer', opts.get('inf_bounds', 0.0))
         d['bounds'], d['inclusive'] = b, inc
+        d['softbounds'] = _softbounds(rng)
         cands = lambda: _in_bounds_candidates(rng, b, ptype == 'Integer', nf)
     elif ptype == 'String':
         cands = lambda: [rng.choice(STRS)]
@@ -520,6 +559,7 @@ def gen_decl(rng, ptype, name, opts):
     elif ptype == 'Range':
         b, inc = _bounds(rng, False, opts.get('inf_bounds', 0.0))
         d['bounds'], d['inclusive'] = b, inc
+        d['softbounds'] = _softbounds(rng)
 
         def rc():
             c = _in_bounds_candidates(rng, b, False, nf)
@@ -716,10 +756,14 @@ def shrink_case(case):
         if case.get('edits') or case.get('final'):
             c = dict(c, edits=[e for e in c.get('edits') or [] if e[0] in names],
                      final=[f for f in c.get('final') or [] if f[0] in names])
+        if case.get('unset'):
+            c = dict(c, unset=[n for n in case['unset'] if n in names])
         if case.get('added') or case.get('replaced'):
             c = dict(c, added=[n for n in c.get('added') or [] if n in names],
                      replaced=[r for r in c.get('replaced') or [] if r[0] in names])
         yield c
+    for k in range(len(case.get('unset') or [])):
+        yield dict(case, unset=case['unset'][:k] + case['unset'][k + 1:])
     for k in range(len(case.get('added') or [])):
         yield dict(case, added=case['added'][:k] + case['added'][k + 1:])
     for k in range(len(case.get('replaced') or [])):
